@@ -69,15 +69,20 @@ func streamFromBucket(bucket, streamInBucket int) int {
 func (s *IDGenerator) GetStream() (int, bool) {
 	// based closely on the java-driver stream ID generator
 	// avoid false sharing subsequent requests.
+	verifPoint("g_load_offset", s, 0, 0)
 	offset := atomic.LoadUint32(&s.offset)
+	verifPoint("g_cas_offset", s, uint64(offset), 0)
 	for !atomic.CompareAndSwapUint32(&s.offset, offset, (offset+1)%s.numBuckets) {
+		verifPoint("g_load_offset", s, 0, 0)
 		offset = atomic.LoadUint32(&s.offset)
+		verifPoint("g_cas_offset", s, uint64(offset), 0)
 	}
 	offset = (offset + 1) % s.numBuckets
 
 	for i := uint32(0); i < s.numBuckets; i++ {
 		pos := int((i + offset) % s.numBuckets)
 
+		verifPoint("g_load_word", s, uint64(pos), 0)
 		bucket := atomic.LoadUint64(&s.streams[pos])
 		if bucket == math.MaxUint64 {
 			// all streams in use
@@ -87,10 +92,13 @@ func (s *IDGenerator) GetStream() (int, bool) {
 		for j := 0; j < bucketBits; j++ {
 			mask := uint64(1 << streamOffset(j))
 			for bucket&mask == 0 {
+				verifPoint("g_cas_word", s, uint64(pos), uint64(j))
 				if atomic.CompareAndSwapUint64(&s.streams[pos], bucket, bucket|mask) {
+					verifPoint("g_add_inuse", s, uint64(pos), uint64(j))
 					atomic.AddInt32(&s.inuseStreams, 1)
 					return streamFromBucket(int(pos), j), true
 				}
+				verifPoint("g_reload_word", s, uint64(pos), uint64(j))
 				bucket = atomic.LoadUint64(&s.streams[pos])
 			}
 		}
@@ -134,6 +142,7 @@ func (s *IDGenerator) String() string {
 
 func (s *IDGenerator) Clear(stream int) (inuse bool) {
 	offset := bucketOffset(stream)
+	verifPoint("c_load_word", s, uint64(stream), 0)
 	bucket := atomic.LoadUint64(&s.streams[offset])
 
 	mask := uint64(1) << streamOffset(stream)
@@ -142,15 +151,19 @@ func (s *IDGenerator) Clear(stream int) (inuse bool) {
 		return false
 	}
 
+	verifPoint("c_cas_word", s, uint64(stream), 0)
 	for !atomic.CompareAndSwapUint64(&s.streams[offset], bucket, bucket & ^mask) {
+		verifPoint("c_reload_word", s, uint64(stream), 0)
 		bucket = atomic.LoadUint64(&s.streams[offset])
 		if bucket&mask != mask {
 			// already cleared
 			return false
 		}
+		verifPoint("c_cas_word", s, uint64(stream), 0)
 	}
 
 	// TODO: make this account for 0 stream being reserved
+	verifPoint("c_dec_inuse", s, uint64(stream), 0)
 	if atomic.AddInt32(&s.inuseStreams, -1) < 0 {
 		// TODO(zariel): remove this
 		panic("negative streams inuse")
